@@ -447,8 +447,32 @@ def _build(ctx, recipe, live=False):
             return AtomGrid.from_pruned(rg, radius, shared("r", r_sectors, arr), shared("d", secs[1], arr), center=c, rotate=rotate, method=method)
         return AtomGrid.from_pruned(rg, radius, shared("r", r_sectors, arr), None, s_sectors=shared("s", secs[1], arr), center=c, rotate=rotate, method=method)
     if kind == "preset":
-        _, atnum, preset, center, rotate = recipe
-        return AtomGrid.from_preset(atnum, preset, center=np.array(center, dtype=float), rotate=rotate)
+        _, atnum, preset, center, rotate = recipe[:5]
+        rspec = recipe[5] if len(recipe) > 5 else None
+        if rspec is None:
+            return AtomGrid.from_preset(atnum, preset, center=np.array(center, dtype=float), rotate=rotate)
+        # the caller's own, short-lived radial grid (one per construction, as in a convergence loop).  In live sequential
+        # runs the simulator also decides where it is allocated: on the address of the radial grid of an atomic grid the
+        # caller dropped just before (object-identity reuse, simkit/addr.py).
+        from grid.basegrid import OneDGrid
+
+        tmpl = M.build_rgrid(rspec)
+        args = (np.array(tmpl.points), np.array(tmpl.weights), tmpl.domain)
+        held = ctx.released_ids.pop("atom", None) if (live and getattr(ctx, "steer", False) and ctx.sched is None) else None
+        target = None
+        if held is not None and getattr(held, "rgrid", None) is not None:
+            target = id(held.rgrid)
+            wr = weakref.ref(held.rgrid)
+            held = None
+            if wr() is not None:
+                target = None
+        held = None
+        if target is not None:
+            rg, landed = build_at_released_address(target, OneDGrid, args, {})
+            ctx.probes.hit("radial-grid-built-at-released-address" if landed else "radial-grid-address-steering-missed")
+        else:
+            rg = OneDGrid(*args)
+        return AtomGrid.from_preset(atnum, preset, rgrid=rg, center=np.array(center, dtype=float), rotate=rotate)
     raise ValueError(kind)
 
 
@@ -1561,6 +1585,14 @@ class CacheHistoryEngine:
                 what = rng.choice(["integrate", "angint", "sph", "spline", "interp"])
                 v1, v2 = rng.choice([(0, 0), (0, 0), (rng.randrange(16), rng.randrange(16))])
                 pat = [atom_op(), ["shell", -1, i0, rsq], ["use", -1, what, v1], ["drop", -1, "atom"], atom_op(), ["shell", -1, i0, rsq], ["use", -1, what, v2]]
+                pos = rng.randint(0, len(spec["ops"]))
+                spec["ops"][pos:pos] = pat
+            if rng.random() < 0.08:
+                # a convergence loop over the caller's own radial grids: build a preset grid on radial grid 1, let go of it,
+                # build the same preset on radial grid 2 (same number of nodes, other radii; steered onto the address of 1)
+                z, pre, n = rng.choice([1, 6, 8]), rng.choice(PRESETS), rng.choice([8, 12, 20])
+                r1, r2 = rng.sample([0.4, 0.8, 1.5, 3.0, 6.0], 2)
+                pat = [["preset", z, pre, _gen_center(rng), 0, ["gl", n, 0.0, r1]], ["drop", -1, "atom"], ["preset", z, pre, _gen_center(rng), 0, ["gl", n, 0.0, r2]]]
                 pos = rng.randint(0, len(spec["ops"]))
                 spec["ops"][pos:pos] = pat
             if rng.random() < 0.06:
